@@ -34,6 +34,7 @@ func init() {
 			{"C13/fresh-identity", "GetSessionIdentity returns an identity object of its own for every call (no shared, cached object)", c13FreshIdentity},
 			{"C13/store", "both session stores are built with both keys, behind len >= 32 guards", c13Store},
 			{"C13/default-keys", "the session keys substituted when none are configured are drawn symbol by symbol from crypto/rand (C18's generator rule)", func(c *Ctx) { c18CSPRNGAs(c, "C13/default-keys") }},
+			{"C13/key-defaults", "config.Load's defaults carry no value for the session keys: a built-in key would pass the length test and be the same on every installation", func(c *Ctx) { keyDefaults(c, "C13/key-defaults", []string{"Server.SessionKey", "Server.SessionEncryptionKey"}) }},
 			{"C13/mirror", "identity Marshal/Unmarshal copy the same fields both ways and cover every field", c13Mirror},
 		},
 	})
